@@ -7,7 +7,9 @@ package filesystem
 import (
 	"archive/zip"
 	"bytes"
+	"errors"
 	"hash/crc32"
+	"io"
 	"os"
 	"sort"
 	"time"
@@ -187,8 +189,17 @@ func (f *vRecFile) ReadAt(p []byte, off int64) (int, error) {
 	}
 	return f.File.ReadAt(p, off)
 }
+// errVerifPartial, returned by a before hook for a Write, makes that write
+// store only the first half of its data and then fail (a short write).
+var errVerifPartial = errors.New("verif: short write")
+
 func (f *vRecFile) Write(p []byte) (int, error) {
 	if _, err := f.fs.rec("Write", f.path, "", true); err != nil {
+		if err == errVerifPartial {
+			n, _ := f.File.Write(p[:len(p)/2])
+			f.wrote += int64(n)
+			return n, io.ErrShortWrite
+		}
 		return 0, err
 	}
 	n, err := f.File.Write(p)
